@@ -471,3 +471,114 @@ def o_c09(spec, obs):
         if succ is not None and succ != (len(last) > 0):
             return True, "successful=%r for a %d-byte reply" % (succ, len(last))
     return False, "ok"
+
+
+# ------------------------------------------------------------------------------- sequences / interleavings (C03)
+@kind("api_seq")
+def k_api_seq(spec):
+    """ops on one connection (mode seq) or one op per instance interleaved by a scripted scheduler (mode inter)"""
+    api_mod = importlib.import_module("aioswitcher.api")
+    ops = spec["ops"]
+    devs = []
+    out = {"frames": [], "results": []}
+    real_open = api_mod.open_connection
+    pending = []
+
+    async def fake_open_connection(host=None, port=None, **kw):
+        d = pending.pop(0)
+        return FakeReader(d), FakeWriter(d)
+
+    api_mod.open_connection = fake_open_connection
+    clocks = [c for o in ops for c in (o.get("clock") or [])]
+    env_spec = {"clock": sorted(clocks) if clocks else None, "zone": spec.get("zone")}
+    try:
+        with Env(env_spec):
+            if spec["mode"] == "seq":
+                dev = FakeDevice([bytes.fromhex(r) for o in ops for r in o["replies"]])
+                pending.append(dev)
+                o0 = ops[0]
+                cls = api_mod.SwitcherType1Api if o0["api"] == 1 else api_mod.SwitcherType2Api
+                api = cls("127.0.0.1", o0["dev_id"], o0["key"])
+
+                async def go():
+                    await api.connect()
+                    marks = []
+                    for o in ops:
+                        n0 = len(dev.frames)
+                        # a reply consumed by nobody would shift the script: align reads with this op's replies
+                        base = sum(len(p["replies"]) for p in ops[:ops.index(o)])
+                        dev.nreads = base
+                        try:
+                            r = await getattr(api, o["op"])(*[denorm(a) for a in o["args"]])
+                            out["results"].append(norm(r))
+                        except Exception as e:  # noqa: BLE001
+                            out["results"].append(exc_name(e))
+                        marks.append([f.hex() for f in dev.frames[n0:]])
+                    await api.disconnect()
+                    return marks
+
+                out["frames"] = asyncio.run(go())
+            else:
+                apis = []
+                for o in ops:
+                    d = FakeDevice([bytes.fromhex(r) for r in o["replies"]])
+                    devs.append(d)
+                    cls = api_mod.SwitcherType1Api if o["api"] == 1 else api_mod.SwitcherType2Api
+                    apis.append(cls("127.0.0.1", o["dev_id"], o["key"]))
+
+                async def go2():
+                    for d, a in zip(devs, apis):
+                        pending.append(d)
+                        await a.connect()
+                    coros = [getattr(a, o["op"])(*[denorm(x) for x in o["args"]]) for a, o in zip(apis, ops)]
+                    results = [None] * len(coros)
+                    live = list(range(len(coros)))
+                    sched = list(spec.get("schedule") or [])
+                    # drive the coroutines by hand following the recorded schedule (awaits inside are sleep(0) yields)
+                    while live:
+                        k = live[sched.pop(0)] if (sched and len(live) > 1) else live[0]
+                        try:
+                            coros[k].send(None)
+                        except StopIteration as si:
+                            results[k] = norm(si.value)
+                            live.remove(k)
+                        except Exception as e:  # noqa: BLE001
+                            results[k] = exc_name(e)
+                            live.remove(k)
+                    return results
+
+                out["results"] = asyncio.run(go2())
+                out["frames"] = [[f.hex() for f in d.frames] for d in devs]
+    finally:
+        api_mod.open_connection = real_open
+    return out
+
+
+@oracle("C03")
+def o_c03(spec, obs):
+    for i, (o, frames) in enumerate(zip(spec["ops"], obs["frames"])):
+        fr = [bytes.fromhex(f) for f in frames]
+        if not fr:
+            return True, "op %d wrote nothing" % i
+        kindn = "login1" if o["api"] == 1 else "login2"
+        lg = fr[0]
+        if len(lg) != SF.FRAME_LEN[kindn]:
+            return True, "op %d: first frame is not a login frame" % i
+        ts = int.from_bytes(lg[24:28], "little")
+        exp = SF.frame_of(O, kindn, dict(ts=ts, key=bytes.fromhex(o["key"]), dev_id=bytes.fromhex(o["dev_id"])))
+        if lg != exp:
+            return True, "op %d: login frame differs from the login layout" % i
+        clocks = o.get("clock") or []
+        if clocks and not any(ts in (int(c), int(c) + 1) for c in clocks):
+            return True, "op %d: timestamp %d is not a clock reading of this operation %r" % (i, ts, clocks)
+        sess = bytes.fromhex(o["replies"][0])[8:12]
+        for k, f in enumerate(fr[1:], 1):
+            if f[8:12] != sess:
+                return True, "op %d frame %d carries session %s, this login returned %s" % (i, k, f[8:12].hex(), sess.hex())
+            if f[24:28] != lg[24:28]:
+                return True, "op %d frame %d carries another timestamp than its login frame" % (i, k)
+            if f[40:43] != bytes.fromhex(o["dev_id"]):
+                return True, "op %d frame %d carries device id %s" % (i, k, f[40:43].hex())
+        if "exception" not in (obs["results"][i] if isinstance(obs["results"][i], dict) else {}) and len(fr) != 2 and o["op"] != "control_breeze_device":
+            return True, "op %d wrote %d frames" % (i, len(fr))
+    return False, "ok"
